@@ -158,8 +158,10 @@ func VerifDump(c *Cmd) VerifAutomaton {
 
 // VerifMatchEvent is one call of Matcher.Match made by the backtracking search
 type VerifMatchEvent struct {
-	State int        `json:"s"`  // source state (numbering of VerifDump)
-	Idx   int        `json:"i"`  // index of the transition in the state
+	// State and Idx locate the transition in the first state it was found in: after simplify a *Transition is
+	// shared by every state it was merged into, so they do not identify the state apply was called on
+	State int        `json:"s"`
+	Idx   int        `json:"i"`
 	L     VerifLabel `json:"l"`
 	Args  []string   `json:"args"`
 	RO    bool       `json:"ro"`
